@@ -22,7 +22,7 @@ from fractions import Fraction
 import core
 import gen
 
-PROOF_MODULES = ["UnytProofs.C20"]
+PROOF_MODULES = ["UnytProofs.C20", "UnytProofs.C20Tab0", "UnytProofs.C20Tab1", "UnytProofs.C20Tab2", "UnytProofs.C20Names"]
 HERE = os.path.dirname(os.path.abspath(__file__))
 LIMIT = 5.0  # seconds per request on the real parser
 
@@ -138,7 +138,8 @@ CHECK = (
     "    f = lambda a, b: a == b or (math.isnan(a) and math.isnan(b)) or math.isclose(a, b, rel_tol=1e-12)\n"
     "    assert v.dimensions == u.dimensions and f(float(v.base_offset), float(u.base_offset)) and f(float(v.base_value), float(u.base_value)), (u, t, v)\n"
     "    assert math.isnan(u.base_value) or v == u, (u, t, v)\n"
-    "    if u.expr.as_coeff_Mul()[0] == 1:\n"
+    "    import sympy\n"
+    "    if not any(f.is_number for f in sympy.Mul.make_args(u.expr)):\n"
     "        assert v.expr == u.expr and hash(v) == hash(u), (u.expr, t, v.expr)\n"
 )
 
@@ -488,6 +489,8 @@ def run(tier, seed):
         strings.append(("probe", s))
     for a in G.atoms:
         strings.append(("atomic", a))
+    for k in ex["inv_names"]:  # every documented name, every run
+        strings.append(("name", k))
     valid = [G.valid() for _ in range(n_valid)]
     strings += [("grammar", s) for s in valid]
     for _ in range(n_mut):
